@@ -372,10 +372,10 @@ Proof. unfold pop_st. intros H Hc. destruct (pst p); [discriminate|]. apply POk_
 Lemma parse_next_c D p g p' : parse_next p = POk (g, p') -> cinv D p -> cinv D p'.
 Proof.
   unfold parse_next. cbv zeta. intros H Hc. pinv_bind H. rename r into p1.
-  assert (Hc0 : cinv D (set_err p false)) by cinv_solve.
+  assert (Hc0 : cinv D (set_buf (set_err p false) [])) by cinv_solve.
   assert (Hc1 : cinv D p1).
   { pif E.
-    - apply POk_inj in E. subst p1. apply (cinv_fields D (set_tok (set_err p false) TRightBrace [125])); try reflexivity.
+    - apply POk_inj in E. subst p1. apply (cinv_fields D (set_tok (set_buf (set_err p false) []) TRightBrace [125])); try reflexivity.
       apply cinv_set_tok; [exact Hc0|apply RT_brace].
     - pinv_bind E. destruct r as [[t d] q]. cbn [fst snd] in E. apply POk_inj in E. subst p1.
       destruct (pop_token_cinv D _ _ _ _ _ _ E1 Hc0) as (Hcq & Ht & _).
@@ -476,5 +476,5 @@ Example conservation_example :
     map (fun r => (fst r, ptt (snd r), pdata (snd r), pbuf (snd r))) tr =
       [ (GBeginRuleset, TWhitespace, [], [(TIdent, [97])]);
         (GDeclaration, TIdent, [98], [(TNumber, [49])]);
-        (GEndRuleset, TRightBrace, [125], [(TNumber, [49])]) ].
+        (GEndRuleset, TRightBrace, [125], []) ].
 Proof. eexists. split; [vm_compute; reflexivity|reflexivity]. Qed.
